@@ -40,6 +40,9 @@ func TestWorker(t *testing.T) {
 			if overlayHooks != nil {
 				overlayHooks()
 			}
+			if simsyncHooks != nil {
+				simsyncHooks()
+			}
 		},
 		Run: run,
 	})
@@ -827,3 +830,7 @@ func checkOutput(rc *kernel.RunCtx, out []byte, done []handled) {
 // overlayHooks is set by autoyield_test.go when the check is built with the
 // statement-level yield overlay.
 var overlayHooks func()
+
+// simsyncHooks is set by simsync_test.go when the check is built with
+// simulated mutexes.
+var simsyncHooks func()
